@@ -47,7 +47,8 @@ type c24Case struct {
 // c24DrawEchoes inserts "echo" operations into a drawn history: for an
 // earlier write op chosen by a drawn selector, a later op that undoes it on
 // (a sub-range of / a neighbour of) the same keys: del -> set, delrun ->
-// setrun, set -> del, setrun/fill -> delrun, usually with a save in between.
+// setrun, set -> del, setrun/fill -> delrun, usually with a save in between,
+// possibly chained (insert, remove part of it, put part of that back).
 // Independent draws rarely come back to the very keys whose removal or
 // insertion shaped a node earlier (keys right at a leaf boundary, keys between
 // a separator and the subtree's current minimum); echoes make such revisits
@@ -56,14 +57,10 @@ type c24Case struct {
 func c24DrawEchoes(rt *rapid.T, ops []hOp) ([]hOp, int) {
 	isDel := func(t string) bool { return t == "del" || t == "delrun" }
 	isSet := func(t string) bool { return t == "set" || t == "setrun" || t == "fill" }
-	ne := rapid.IntRange(0, 3).Draw(rt, "nEcho")
-	done := 0
-	for e := 0; e < ne; e++ {
-		l := fmt.Sprintf("echo%d", e)
-		// top[i]: ops[i] is outside a detached episode (loadver .. loadlatest)
-		top := make([]bool, len(ops)+1)
+	// scan: top[i] = ops[i] is outside a detached episode (loadver .. loadlatest)
+	scan := func() (top []bool, dels, sets []int) {
+		top = make([]bool, len(ops)+1)
 		in := false
-		var dels, sets []int
 		for i, op := range ops {
 			top[i] = !in
 			if op.T == "loadver" {
@@ -78,75 +75,98 @@ func c24DrawEchoes(rt *rapid.T, ops []hOp) ([]hOp, int) {
 			}
 		}
 		top[len(ops)] = true
+		return
+	}
+	ne := rapid.IntRange(0, 3).Draw(rt, "nEcho")
+	done := 0
+	for e := 0; e < ne; e++ {
+		_, dels, sets := scan()
 		src := dels
-		if len(src) == 0 || (len(sets) > 0 && rapid.IntRange(0, 3).Draw(rt, l+"kind") == 0) {
+		if len(src) == 0 || (len(sets) > 0 && rapid.IntRange(0, 2).Draw(rt, fmt.Sprintf("echo%dkind", e)) == 0) {
 			src = sets
 		}
 		if len(src) == 0 {
 			break
 		}
-		i := src[rapid.IntRange(0, len(src)-1).Draw(rt, l+"src")]
-		o := ops[i]
-		var echo hOp
-		sub := func(n int) (off, cnt int) {
-			if n < 1 {
-				n = 1
+		i := src[rapid.IntRange(0, len(src)-1).Draw(rt, fmt.Sprintf("echo%dsrc", e))]
+		// a chain: each link undoes (part of) the previous link
+		links := rapid.IntRange(1, 3).Draw(rt, fmt.Sprintf("echo%dlinks", e))
+		for k := 0; k < links; k++ {
+			l := fmt.Sprintf("echo%d.%d", e, k)
+			o := ops[i]
+			var echo hOp
+			sub := func(n int) (off, cnt int) {
+				if n < 1 {
+					n = 1
+				}
+				if rapid.IntRange(0, 2).Draw(rt, l+"whole") == 0 {
+					return 0, n
+				}
+				off = rapid.IntRange(0, n-1).Draw(rt, l+"off")
+				cnt = rapid.IntRange(1, n-off).Draw(rt, l+"cnt")
+				return
 			}
-			if rapid.IntRange(0, 2).Draw(rt, l+"whole") == 0 {
-				return 0, n
-			}
-			off = rapid.IntRange(0, n-1).Draw(rt, l+"off")
-			cnt = rapid.IntRange(1, n-off).Draw(rt, l+"cnt")
-			return
-		}
-		switch o.T {
-		case "del":
-			k := o.K
-			switch rapid.IntRange(0, 5).Draw(rt, l+"var") {
-			case 0:
-				k += rapid.SampledFrom(hSuffixes[4:]).Draw(rt, l+"sfx")
-			case 1:
-				if len(k) > 6 {
-					k = k[:6]
+			val := fmt.Sprintf("e%d.%d", e, k)
+			switch o.T {
+			case "del":
+				key := o.K
+				switch rapid.IntRange(0, 5).Draw(rt, l+"var") {
+				case 0:
+					key += rapid.SampledFrom(hSuffixes[4:]).Draw(rt, l+"sfx")
+				case 1:
+					if len(key) > 6 {
+						key = key[:6]
+					}
+				}
+				echo = hOp{T: "set", K: key, V: val}
+			case "delrun":
+				off, cnt := sub(o.N)
+				echo = hOp{T: "setrun", A: o.A + off*o.S, N: cnt, S: o.S, V: val}
+			case "set":
+				echo = hOp{T: "del", K: o.K}
+			case "setrun":
+				off, cnt := sub(o.N)
+				echo = hOp{T: "delrun", A: o.A + off*o.S, N: cnt, S: o.S}
+			case "fill":
+				off, cnt := sub(2 * o.N)
+				echo = hOp{T: "delrun", A: o.A + off, N: cnt, S: 1}
+				if rapid.IntRange(0, 2).Draw(rt, l+"stride") == 0 {
+					echo.S = 2
+					echo.N = (cnt + 1) / 2
 				}
 			}
-			echo = hOp{T: "set", K: k, V: fmt.Sprintf("e%d", e)}
-		case "delrun":
-			off, cnt := sub(o.N)
-			echo = hOp{T: "setrun", A: o.A + off*o.S, N: cnt, S: o.S, V: fmt.Sprintf("e%d", e)}
-		case "set":
-			echo = hOp{T: "del", K: o.K}
-		case "setrun":
-			off, cnt := sub(o.N)
-			echo = hOp{T: "delrun", A: o.A + off*o.S, N: cnt, S: o.S}
-		case "fill":
-			off, cnt := sub(2 * o.N)
-			echo = hOp{T: "delrun", A: o.A + off, N: cnt, S: 1}
-			if rapid.IntRange(0, 2).Draw(rt, l+"stride") == 0 {
-				echo.S = 2
-				echo.N = (cnt + 1) / 2
+			top, _, _ := scan()
+			var pos []int
+			for j := i + 1; j <= len(ops); j++ {
+				if top[j] {
+					pos = append(pos, j)
+				}
 			}
-		}
-		var pos []int
-		for j := i + 1; j <= len(ops); j++ {
-			if top[j] {
-				pos = append(pos, j)
+			if len(pos) == 0 {
+				break
 			}
+			// mostly soon after the op it undoes, sometimes anywhere later
+			p := pos[0]
+			if n := len(pos); n > 1 {
+				if rapid.Bool().Draw(rt, l+"near") {
+					if n > 4 {
+						n = 4
+					}
+				}
+				p = pos[rapid.IntRange(0, n-1).Draw(rt, l+"pos")]
+			}
+			var ins []hOp
+			if rapid.IntRange(0, 3).Draw(rt, l+"saveBefore") > 0 {
+				ins = append(ins, hOp{T: "save"})
+			}
+			i = p + len(ins)
+			ins = append(ins, echo)
+			if rapid.Bool().Draw(rt, l+"saveAfter") {
+				ins = append(ins, hOp{T: "save"})
+			}
+			ops = append(ops[:p:p], append(ins, ops[p:]...)...)
+			done++
 		}
-		if len(pos) == 0 {
-			break
-		}
-		p := pos[rapid.IntRange(0, len(pos)-1).Draw(rt, l+"pos")]
-		var ins []hOp
-		if rapid.IntRange(0, 2).Draw(rt, l+"saveBefore") > 0 {
-			ins = append(ins, hOp{T: "save"})
-		}
-		ins = append(ins, echo)
-		if rapid.Bool().Draw(rt, l+"saveAfter") {
-			ins = append(ins, hOp{T: "save"})
-		}
-		ops = append(ops[:p:p], append(ins, ops[p:]...)...)
-		done++
 	}
 	return ops, done
 }
@@ -594,7 +614,7 @@ func TestC24_Differential(t *testing.T) {
 	var th bool
 	vk.Run(t, vk.Spec[c24Case]{
 		ID: "C24", Name: "TestC24_Differential",
-		Rule: "rapid: a C23-style history (run A: drawn cache/fast/flush, reopens, prunes, snapshots) and a second configuration vector (run B: cycle of configs, own reopen-after-save mask, prunes dropped or kept); same logical history => same root hash for every version; then Export(nil)/Import of the newest <=4 retained versions into an empty DB must reproduce hash and contents (importing handle, reloaded handle, snapshot); non-trivial = >=2 versions, root split, and the two runs differ in config, reopen pattern or pruning",
+		Rule: "rapid: a C23-style history (run A: drawn cache/fast/flush, reopens, prunes, snapshots) and a second configuration vector (run B: cycle of configs, own reopen-after-save mask, prunes dropped or kept); same logical history => same root hash for every version; then Export(nil)/Import of the newest <=4 retained versions into an empty DB must reproduce hash and contents (importing handle, reloaded handle, snapshot); continued histories: at the saves of B selected by a drawn mask the saved version is exported and imported into an empty DB and that replica (<=3 alive, own config/reopens, importing or reloaded handle) receives all further ops: every version it saves must have the root hash of run A and the model contents; the history generator adds echo ops (a later op that undoes part of an earlier one on the same keys, chained, with saves in between) and usually a final save; non-trivial = >=2 versions, root split, and the two runs differ in config, reopen pattern or pruning",
 		Setup: func(r *vk.Rec) { th = r.Thorough() },
 		Draw: func(rt *rapid.T) c24Case {
 			o := c23Opts(th)
